@@ -198,8 +198,10 @@ def run(R):
         'transport stubs below the repository code: an RFC 7233 origin server (absent/unparsable/invalid Range '
         'ignored, first >= size -> 416, last clamped) behind GoogleStorageClient._session.get and behind '
         'boto3 get_object (416 = ClientError code InvalidRange); azure BlobClient.download_blob(offset, length) '
-        'returns the size-clamped range and raises HttpResponseError(416) when offset >= size, chunks() yields '
-        'non-empty chunks; builtin open() returns a BinaryIO over the object',
+        'returns the size-clamped range and raises HttpResponseError(416) when offset >= size (the Azure SDK is not '
+        'installed here: this 416 behaviour is taken from aioazure/fs.py itself — its comment "cannot set the '
+        'default to 0 because this will fail on an empty file" and its status_code == 416 handler in the sized '
+        'branch), chunks() yields non-empty chunks; builtin open() returns a BinaryIO over the object',
         'aiohttp StreamReader.readexactly raises asyncio.IncompleteReadError when fewer bytes remain; read(n) may '
         'return fewer than n bytes but not zero before EOF (also botocore StreamingBody)',
         'local files are io.BufferedReader: read(n) is not short before EOF (short reads are still explored for '
